@@ -2,6 +2,7 @@ package props
 
 import (
 	"fmt"
+	"sort"
 	"go/token"
 	"go/types"
 	"strings"
@@ -387,6 +388,48 @@ func runC09(c *eng.Ctx) {
 	c.Rule("ATOMIC", mssT+".Flush{written == marked}", func() { schemaFlushMarksWhatItWrote(c) })
 
 	// ---- 10. series id provenance -----------------------------------------------------------------------------------
+	// ---- compaction of the persisted schema dictionary: one metric's schema is merged from that metric's values only -----------------
+	c.Rule("RESET", "index/v1.metricSchemaMerger.Merge{schema accumulator per metric}", func() {
+		f := c.Fn("index/v1.metricSchemaMerger.Merge")
+		un := c.Some(f, eng.AnyCallTo("series/metric.Schema.Unmarshal", "series/metric.Schema.UnmarshalFromPersist"), "schema.Unmarshal(value)")
+		// the fields Unmarshal accumulates into
+		acc := map[string]bool{}
+		for _, w := range writesIn(p, c.Fn("series/metric.Schema.unmarshal"), "series/metric.Schema") {
+			acc[w.field] = true
+		}
+		c.Check(len(acc) >= 2, "accumulating-fields-found", nil, f, "Schema.unmarshal appends to the schema's field and tag-key lists", fmt.Sprintf("%d fields", len(acc)))
+		for i, u := range un {
+			recv := eng.Unwrap(eng.CallRecv(u.Instr.(*ssa.Call)))
+			if al, ok := recv.(*ssa.Alloc); ok && al.Parent() == f {
+				c.Check(true, fmt.Sprintf("fresh-accumulator[%d]", i), u.Instr, f, "the schema a metric's values are merged into starts empty", "")
+				continue
+			}
+			// a reused object: every accumulating field is emptied before the first value of the metric is merged
+			var fs []string
+			for k := range acc {
+				fs = append(fs, k)
+			}
+			sort.Strings(fs)
+			missing := ""
+			for _, fld := range fs {
+				sts := p.Sites(f, func(p *eng.Prog, in ssa.Instruction) bool {
+					st, ok := in.(*ssa.Store)
+					if !ok {
+						return false
+					}
+					fa, ok := st.Addr.(*ssa.FieldAddr)
+					return ok && eng.FieldKeyOfAddr(fa) == "series/metric.Schema."+fld && (eng.SameValue(fa.X, recv) || p.Desc(fa.X) == p.Desc(recv))
+				})
+				if len(sts) == 0 || !eng.DominatedBy(f, u.Instr, sts, nil) {
+					missing += fld + " "
+				}
+			}
+			c.Check(missing == "", fmt.Sprintf("fresh-accumulator[%d]", i), u.Instr, f,
+				"the schema a metric's values are merged into starts empty: a fresh object per Merge call, or a reused one with EVERY list Unmarshal appends to emptied first (otherwise the fields / tag keys of the previous metric are written into this metric's persisted schema)",
+				"reused accumulator "+p.Desc(recv)+"; not reset before Unmarshal: "+missing)
+		}
+	})
+
 	c.Rule("PROV", midT+".createSeriesID", func() {
 		f := c.Fn(midT + ".createSeriesID")
 		n := 0
